@@ -88,9 +88,35 @@ var c30Digest = func() core.Digest {
 func c30NewTask(store string, i int, delayUnits int) persistedretry.Task {
 	delay := time.Duration(delayUnits) * c30Unit
 	if store == "tr" {
-		return tagreplication.NewTask("t"+strconv.Itoa(i/2), c30Digest, core.DigestList{c30Digest}, "d"+strconv.Itoa(i%2), delay)
+		// the payload columns vary with the key: i%3+1 dependencies
+		deps := core.DigestList{}
+		for j := 0; j <= i%3; j++ {
+			deps = append(deps, c30Digest)
+		}
+		return tagreplication.NewTask("t"+strconv.Itoa(i/2), c30Digest, deps, "d"+strconv.Itoa(i%2), delay)
 	}
 	return writeback.NewTask("n"+strconv.Itoa(i%2), "b"+strconv.Itoa(i/2), delay)
+}
+
+// c30Payload is the canonical token of the columns of a task the key does not determine: what the
+// executor is handed must be what was added, also after the row went through the table.
+func c30Payload(t persistedretry.Task) string {
+	switch x := t.(type) {
+	case *writeback.Task:
+		return fmt.Sprintf("%d.0.g", int(x.Delay/c30Unit))
+	case *tagreplication.Task:
+		g := "g"
+		if x.Digest != c30Digest {
+			g = "b"
+		}
+		for _, d := range x.Dependencies {
+			if d != c30Digest {
+				g = "b"
+			}
+		}
+		return fmt.Sprintf("%d.%d.%s", int(x.Delay/c30Unit), len(x.Dependencies), g)
+	}
+	return "?"
 }
 
 type c30Validator struct{ invalid map[string]bool }
@@ -124,7 +150,7 @@ func (e *c30Exec) Exec(t persistedretry.Task) error {
 	}
 	e.rel[k] = append(e.rel[k], ch)
 	e.mu.Unlock()
-	e.starts <- k
+	e.starts <- k + ":" + c30Payload(t)
 	return <-ch
 }
 
@@ -559,8 +585,9 @@ func (s *c30Sess) noteQueued(k, p string) {
 	s.queued[p]++
 }
 
-func (s *c30Sess) noteStart(k string) {
-	s.started = append(s.started, k)
+func (s *c30Sess) noteStart(kp string) {
+	s.started = append(s.started, kp)
+	k := strings.SplitN(kp, ":", 2)[0]
 	p, ok := s.pool[k]
 	if !ok {
 		p = "in"
@@ -1197,6 +1224,7 @@ type c30FreeLog struct {
 	removed  map[string]int
 	bad      []string
 	execs    int
+	payload  map[string]string
 }
 
 type c30FreeExec struct{ l *c30FreeLog }
@@ -1207,6 +1235,9 @@ func (e c30FreeExec) Exec(t persistedretry.Task) error {
 	e.l.mu.Lock()
 	defer e.l.mu.Unlock()
 	e.l.execs++
+	if want, ok := e.l.payload[k]; ok && want != c30Payload(t) {
+		e.l.bad = append(e.l.bad, "payload-changed "+k+"_added_"+want+"_executed_"+c30Payload(t))
+	}
 	if e.l.removed[k] > 0 {
 		e.l.bad = append(e.l.bad, "executed-after-success "+k)
 	}
@@ -1246,7 +1277,7 @@ func c30FreeRun(env *c30Env, tr *verifh.T, c verifh.Case) {
 	}
 	tr.Cfg(cfg.toks()...)
 	defer tr.End()
-	l := &c30FreeLog{failLeft: map[string]int{}, okExec: map[string]int{}, removed: map[string]int{}}
+	l := &c30FreeLog{failLeft: map[string]int{}, okExec: map[string]int{}, removed: map[string]int{}, payload: map[string]string{}}
 	var db *sqlx.DB
 	var m persistedretry.Manager
 	open := func() bool {
@@ -1294,10 +1325,12 @@ func c30FreeRun(env *c30Env, tr *verifh.T, c verifh.Case) {
 			if added[op[2]] {
 				continue // each key once: a re-add after completion would legitimately execute again
 			}
+			task := c30NewTask(cfg.store, i, 0)
 			l.mu.Lock()
 			l.failLeft[op[2]] = f
+			l.payload[op[2]] = c30Payload(task)
 			l.mu.Unlock()
-			if err := m.Add(c30NewTask(cfg.store, i, 0)); err != nil {
+			if err := m.Add(task); err != nil {
 				tr.PropFail("add-failed", verifh.Str(err.Error()))
 			}
 			added[op[2]] = true
